@@ -61,7 +61,7 @@ func nonTrivial(sc Scenario) bool {
 	return false
 }
 
-var ids = []int{1, 4, 6, 8, 11, 12, 15, 17, 60, 258, 65000}
+var ids = []int{1, 4, 6, 8, 11, 12, 15, 17, 60, 258, 65000, 65535, 0}
 
 func genVal(t *rapid.T) []byte {
 	n := rapid.SampledFrom([]int{0, 0, 1, 1, 2, 3, 4, 5, 8, 9, 13, 40, 100, 200, 255, 256, 257, 300}).Draw(t, "vlen")
@@ -225,7 +225,7 @@ func TestCheck(t *testing.T) {
 	optsE := evid.RapidEngine("options", evid.RapidOpts{Quick: 60000, Thorough: 1500000}, genScenario("options"), account(r, "options"))
 	poolE := evid.RapidEngine("pool", evid.RapidOpts{Quick: 60000, Thorough: 1500000}, genScenario("pool"), account(r, "pool"))
 	r.Main(evid.Meta{
-		Rule:        "operation sequences on message.Options (fresh caller buffer per call, exact / too small / larger) and on pool.Message (typed setters, clone, reset, recycle) against a reference list (ascending by number, insertion order among equals, private value copies); after every step the whole list and every query (Find, HasOption, single and multi-value getters with exact / larger / too-small outputs, Path, LocationPath, Queries, typed getters) are compared; inputs are scribbled over after each call. Exhaustive: every sequence of length <= 4 over {set, add, remove} x 3 ids x 2 values x 3 capacities x both targets; random: sequences of 1-14 ops over 11 option numbers, values 0-300 bytes, a path grammar with empty / 255 / 256-byte segments. Non-trivial = an insertion before an existing larger number, a set on an option that has >= 2 values, or (pool) more than 256 value bytes so that the value buffer grows; distinct by scenario",
+		Rule:        "operation sequences on message.Options (fresh caller buffer per call, exact / too small / larger) and on pool.Message (typed setters, clone, reset, recycle) against a reference list (ascending by number, insertion order among equals, private value copies); after every step the whole list and every query (Find, HasOption, single and multi-value getters with exact / larger / too-small outputs, Path, LocationPath, Queries, typed getters) are compared; inputs are scribbled over after each call. Exhaustive: every sequence of length <= 4 over {set, add, remove} x 3 ids x 2 values x 3 capacities x both targets; random: sequences of 1-14 ops over 13 option numbers (0 and 65535, the ends of the 16-bit range, among them), values 0-300 bytes, a path grammar with empty / 255 / 256-byte segments. Non-trivial = an insertion before an existing larger number, a set on an option that has >= 2 values, or (pool) more than 256 value bytes so that the value buffer grows; distinct by scenario",
 		Assumptions: []string{"after ErrTooSmall from message.Options the list is only required to support the documented retry with a larger buffer on the returned list", "SetPath(\"\") is a documented no-op; the path round-trip law is asserted for paths with at least one non-empty segment", "GetUint32 on values longer than 4 bytes is only required not to crash and to agree with GetUint32s"},
 		Floor:       2000,
 	}, exhaustiveEngine(), optsE, poolE)
